@@ -1,8 +1,13 @@
-HOOK_COMMITS = ["74cfa34e"]
+HOOK_COMMITS = ["74cfa34e", "caf03176"]
 
 NOT_APPLICABLE = {}
 
 META = {
+ "C01": dict(
+  text="Differential random testing end to end: generated programs (synthetic module runtime 'verifdsl' registered through wasm.RegisterModuleFactory, real module hashes, real cache files, real tier1/tier2 services in process) are run as 1..3 requests in sequence on one cache directory with generated mode, range, segment size, worker count, finality point and steered job completion order; every run is compared with the single sequential execution L the statement defines (dev mode, empty cache, one huge segment): order, identity of every delivered (number, id, payload), omissions only of empty outputs below the hand-off in production mode, final stores typed-equal.",
+  design_ref="DESIGN.md section 3, C01",
+  note="The synthetic modules hash the typed values they read (set:/sum: tags stripped, numbers canonical) because squashed and sequential stores legitimately differ in float text. The parallel phase runs on the real event loop: job completion order is steered, not owned. Linear blocks are delivered as final (new+irreversible).",
+  technique="rapid random generation, differential against the sequential reference execution"),
  "C02": dict(
   text="Differential + model-based random testing: for every (policy, value type) kind the host interface admits, generated block/operation lists (arbitrary ordinals, delete_prefix interleaved, shared-prefix keys) are executed through the real host calls sequentially on one FullKV and per segment on PartialKVs that are saved, reloaded and merged in order; both results are compared typed with each other and with an independent reference model.",
   design_ref="DESIGN.md section 3, C02",
